@@ -68,3 +68,19 @@ From WaxProofs Require Import MatcherFacts.
 Theorem C01_model_engine_decides_the_language : forall orbit r w, accepts orbit r w = true <-> sem orbit r w.
 Proof. exact accepts_spec. Qed.
 Print Assumptions C01_model_engine_decides_the_language.
+
+From WaxProofs Require Import SpecMatchFacts.
+
+(* the oracle the check evaluates on the implementation's outputs decides exactly the documented language, for every token
+   tree and every text (the bound on optional repetitions is proved sufficient: every iteration that is not droppable lowers
+   2 * remaining text + rank of the scan state) *)
+Theorem C01_oracle_decides_the_documented_language : forall orbit t w, spec_match orbit t w = true <-> Lang orbit t w.
+Proof. exact spec_match_spec. Qed.
+Print Assumptions C01_oracle_decides_the_documented_language.
+
+(* hence, in the class of C01_conformance, the two executables the correspondence check compares the implementation with -
+   the model engine on the model of the compiled program, and the oracle - compute the same function *)
+Theorem C01_executables_agree : forall orbit t w, wf_tok t = true -> trees_exact t = true ->
+  accepts orbit (encode t) w = spec_match orbit t w.
+Proof. exact executables_agree. Qed.
+Print Assumptions C01_executables_agree.
